@@ -365,7 +365,8 @@ def gen_main_program(rng: random.Random, idx: int, max_depth: int = 6) -> Dict[s
             stmts.append({"k": "const", "name": nm, "rhs": {"k": "bool", "spelling": rng.choice(["true", "false", "yes", "no"])}})
             other[nm] = "bool"
         elif r < 0.88:
-            stmts.append({"k": "const", "name": nm, "rhs": _str_rhs(rng, gen_safe_string(rng))})
+            sv = gen_safe_string(rng) if rng.random() < 0.5 else gen_unsafe_string(rng)
+            stmts.append({"k": "const", "name": nm, "rhs": _str_rhs(rng, sv)})
             other[nm] = "str"
         else:
             pool = sorted(env) + sorted(other)
@@ -427,7 +428,7 @@ def _str_rhs(rng: random.Random, value: str) -> Dict[str, Any]:
 
 
 def gen_string_program(rng: random.Random, idx: int) -> Dict[str, Any]:
-    """string constants INSIDE the class of the known finding str-escape"""
+    """string constants inside the class of the (fixed) finding str-escape: quotes, backslashes, LF, CR, NUL, escape look-alikes"""
     stmts = []
     for j in range(rng.randrange(1, 4)):
         stmts.append({"k": "const", "name": f"S{j}", "rhs": _str_rhs(rng, gen_unsafe_string(rng))})
@@ -437,7 +438,7 @@ def gen_string_program(rng: random.Random, idx: int) -> Dict[str, Any]:
 
 
 def gen_divzero_program(rng: random.Random, idx: int) -> Dict[str, Any]:
-    """an expression that divides by zero (inside the class of the known finding div-zero)"""
+    """an expression that divides by zero (class of the fixed finding div-zero: must be diagnosed)"""
     env: Dict[str, int] = {"Z0": 0, "P": 12}
     for _ in range(200):
         e = gen_expr(rng, rng.choice([1, 2, 3, 4]), env, allow_zero_div=True)
